@@ -52,11 +52,17 @@ class ProtocolType(Protocol):
 @cache
 def get_protocol(protocol_version: str) -> ProtocolType:
     """Return the protocol module for the protocol_version."""
+    version = AwesomeVersion(protocol_version)
+    if not version.valid:
+        raise ValueError(f"Invalid protocol version: {protocol_version}")
+    # Only major.minor selects the protocol: 2.2.0 and 2.3.2 are served by 2.2.
+    major_minor = (version.section(0), version.section(1))
     module = next(
         (
             PROTOCOL_VERSIONS[_protocol_version]
             for _protocol_version in sorted(PROTOCOL_VERSIONS, reverse=True)
-            if AwesomeVersion(protocol_version) >= AwesomeVersion(_protocol_version)
+            if major_minor
+            >= tuple(int(section) for section in _protocol_version.split("."))
         ),
         protocol_14,
     )
